@@ -348,9 +348,6 @@ pub fn first_violation(events: &[Event], guards: &[String]) -> Option<(usize, St
                 }
             }
             Event::Begin(k) => {
-                if st.commits < 2 {
-                    continue; // ignored by the executor as well (finding D26)
-                }
                 let tx = st.model.begin();
                 st.zombies.remove(k);
                 st.sess.insert(*k, tx);
